@@ -458,7 +458,7 @@ func jobAlg(j *jobCtx) {
 						e := Ev{"fam": "alg", "kind": c.kind, "cfg": cfg, "op": op, "alias": alias, "rs": 1, "timeout": false,
 							"a0": observeSet(a, probe), "b0": observeSet(b, probe)}
 						var r sets.Set[int]
-						fa0, fb0 := fpOf(deepString(a, nil, true, false)), fpOf(deepString(b, nil, true, false))
+						fa0, fb0 := fpOf(purityString(a)), fpOf(purityString(b))
 						ci := invoke(e, func() { r = algebra(c.kind, a, b, op) })
 						e["panic"], e["pmsg"], e["out"], e["cmps"] = ci.Panic, ci.PMsg, ci.Out, ci.Cmps
 						e["obsbad"] = false
@@ -471,7 +471,7 @@ func jobAlg(j *jobCtx) {
 							continue
 						}
 						e["a1"], e["b1"], e["r1"] = observeSet(a, probe), observeSet(b, probe), observeSet(r, probe)
-						e["pure"] = fa0 == fpOf(deepString(a, nil, true, false)) && fb0 == fpOf(deepString(b, nil, true, false))
+						e["pure"] = fa0 == fpOf(purityString(a)) && fb0 == fpOf(purityString(b))
 						// independence: mutate each of the three objects in turn and observe all three
 						muts := []Ev{}
 						objs := []sets.Set[int]{a, b, r}
